@@ -237,3 +237,18 @@ func runHistoryCase(t *rapid.T, property string, prof *kvh.GenProfile, nonTrivia
 		}
 	}
 }
+
+// scaleRapidChecksDiv divides -rapid.checks by div (at least 1) until the returned function is called.
+func scaleRapidChecksDiv(div int) func() {
+	f := flag.Lookup("rapid.checks")
+	if f == nil {
+		return func() {}
+	}
+	old := f.Value.String()
+	n, err := strconv.Atoi(old)
+	if err != nil {
+		return func() {}
+	}
+	_ = flag.Set("rapid.checks", strconv.Itoa(max(1, n/div)))
+	return func() { _ = flag.Set("rapid.checks", old) }
+}
